@@ -39,6 +39,11 @@ def pair(rng, same_shape=False, **kw):
         b["as"] = gen.choice(rng, ["ndarray", "list"]) if sb else "scalar"
     else:
         b = P(rng, names=nb, shape=sb, kind=kind, **kw)
+    # binary entries also meet operands whose names are declared in another order (rotated / reversed): aligning them must
+    # leave the operand itself alone (seeded change C17-11) and give the same value (C02-13)
+    for o in (a, b):
+        if o.get("as") == "poly" and len(o["names"]) >= 2 and rng.random() < .12:
+            o["as"] = gen.choice(rng, ["poly_rot", "poly_perm"])
     return [a, b]
 
 
@@ -135,6 +140,9 @@ def entries():
         lambda k: numpoly.polynomial({(0, 1): 1, (2, 0): k}, names="q"), "construct")
     add("polynomial_from_roots", lambda r: [[int(x) for x in r.integers(-3, 4, size=int(r.integers(1, 5)))]],
         lambda roots: numpoly.polynomial_from_roots(roots), "construct")
+    # roots handed over as an unsorted numpy array (the caller's array must stay as it is: seeded change C17-12)
+    add("polynomial_from_roots(ndarray)", lambda r: [dict(gen.gen_const_struct(r, shape=(int(r.integers(3, 6)),), kind="int"), **{"as": "ndarray"})],
+        lambda z: numpoly.polynomial_from_roots(z), "construct")
     add("polynomial_from_roots(float)", lambda r: [[float(x) / 2 for x in r.integers(-4, 5, size=int(r.integers(1, 4)))]],
         lambda roots: numpoly.polynomial_from_roots(roots), "construct")
     add("polynomial(list of polys)", lambda r: [P(r, shape=gen.choice(r, [(2,), (3,), (2, 2)]))],
@@ -211,6 +219,16 @@ def entries():
     # retained all-zero term, the value is the same either way (D58: inf * 0 = nan under retain_coefficients=True)
     add("cancelled high power then call(large float)", lambda r: [int(r.integers(100, 200)), int(r.integers(-3, 4)), gen.choice(r, [1e10, -1e9, 2.5e12])],
         lambda e, c, x: (lambda q: (1.0 * q ** e - q ** e + c + q)(x))(numpoly.variable()), "calculus")
+    # constant-ness after a cancellation: the cancelled terms are absent or retained all-zero terms, the answer is the
+    # same (seeded change C15-13: isconstant through a cleanup that follows the global option)
+    add("isconstant after cancellation", lambda r: [P(r, nterms=2, kind="int"), int(r.integers(-3, 4))],
+        lambda a, c: (a - a + c).isconstant(), "query")
+    add("tonumpy after cancellation", lambda r: [P(r, nterms=2, kind="int"), int(r.integers(-3, 4))],
+        lambda a, c: (a - a + c).tonumpy(), "query")
+    add("call that leaves a constant", lambda r: [P(r, shape=(), names=[0, 1], nterms=2, kind="int")],
+        lambda a: (a - a + numpoly.symbols("q0") - numpoly.symbols("q1"))(q0=numpoly.symbols("q1")), "calculus")
+    add("power with a cancelled exponent polynomial", lambda r: [P(r, shape=(), nterms=2, kind="int"), int(r.integers(0, 3))],
+        lambda a, k: numpoly.symbols("q1") ** (a - a + k), "arith")
     add("call(poly)", lambda r: [P(r, maxexp=2, nterms=2), P(r, shape=(), nterms=2, maxexp=1)],
         lambda a, b: a(**{a.names[0]: b}), "calculus")
     # alignment ----------------------------------------------------------------------------
